@@ -96,13 +96,28 @@ func runC14Pace(d1, d2 time.Duration) (int, int, error) {
 	if err != nil {
 		return s1, 0, fmt.Errorf("BROKEN: listen: %v", err)
 	}
-	l.(*net.TCPListener).SetDeadline(time.Now().Add(bound)) //nolint:errcheck
-	conn, err := l.Accept()
-	l.Close()
-	if err != nil {
-		return s1, 0, fmt.Errorf("the client never connected within %v after a listener appeared", bound)
+	// a connection that became a channel (an attempt whose time budget ran out after the handshake is dropped
+	// by the client and does not count), then dropped by the peer
+	deadline := time.Now().Add(bound)
+	opened := false
+	for !opened {
+		l.(*net.TCPListener).SetDeadline(deadline) //nolint:errcheck
+		conn, err := l.Accept()
+		if err != nil {
+			l.Close()
+			return s1, 0, fmt.Errorf("the client never connected within %v after a listener appeared", bound)
+		}
+		opened = rec.WaitFor(400*time.Millisecond, func(recs []sim.Rec) bool {
+			for _, e := range lifecycle(recs) {
+				if e.open {
+					return true
+				}
+			}
+			return false
+		})
+		conn.Close()
 	}
-	conn.Close()
+	l.Close()
 	if !rec.WaitFor(bound, func(recs []sim.Rec) bool {
 		for _, e := range lifecycle(recs) {
 			if !e.open {
@@ -122,12 +137,25 @@ func runC14Pace(d1, d2 time.Duration) (int, int, error) {
 	if err != nil {
 		return s1, s2, fmt.Errorf("BROKEN: listen: %v", err)
 	}
-	l2.(*net.TCPListener).SetDeadline(time.Now().Add(bound)) //nolint:errcheck
-	conn2, err := l2.Accept()
-	l2.Close()
-	if err != nil {
-		return s1, s2, fmt.Errorf("after %v of failed attempts (connect timeout %v) the client never connected again within %v of a listener appearing", d2, n.ReadTimeout, bound)
+	deadline2 := time.Now().Add(bound)
+	for opened2 := false; !opened2; {
+		l2.(*net.TCPListener).SetDeadline(deadline2) //nolint:errcheck
+		conn2, err := l2.Accept()
+		if err != nil {
+			l2.Close()
+			return s1, s2, fmt.Errorf("after %v of failed attempts (connect timeout %v) the client never got a connection again within %v of a listener appearing", d2, n.ReadTimeout, bound)
+		}
+		opened2 = rec.WaitFor(400*time.Millisecond, func(recs []sim.Rec) bool {
+			k := 0
+			for _, e := range lifecycle(recs) {
+				if e.open {
+					k++
+				}
+			}
+			return k >= 2
+		})
+		conn2.Close()
 	}
-	conn2.Close()
+	l2.Close()
 	return s1, s2, nil
 }
